@@ -284,6 +284,74 @@ def _other(which, n, bits):
     return sd == (D.number_of_vertices(), sorted(D.edges()), D.name)
 
 
+def _nx_args(which, bits, as_str):
+    """networkx graphs passed to generators / transformations keep nodes, node data, edges and graph attributes"""
+    import networkx
+    from cnfgen.families.pigeonhole import GraphPigeonholePrinciple
+    from cnfgen.families.subsetcardinality import SubsetCardinalityFormula
+    from cnfgen.families.pebbling import PebblingFormula, SparseStoneFormula
+    from cnfgen.families.tseitin import TseitinFormula
+    from cnfgen.families.coloring import GraphColoringFormula
+    from cnfgen.families.counting import PerfectMatchingPrinciple
+    from cnfgen.transformations.substitutions import VariableCompression
+
+    def snap(N):
+        return (list(N.nodes(data=True)), sorted(map(repr, N.edges(data=True))), dict(N.graph), type(N).__name__)
+    if which == 0:
+        N = networkx.Graph()
+        for u in range(3):
+            N.add_node('a%d' % u, bipartite='0' if as_str else 0)
+        for v in range(2):
+            N.add_node('b%d' % v, bipartite='1' if as_str else 1)
+        k = 0
+        for u in range(3):
+            for v in range(2):
+                if bits >> k & 1:
+                    N.add_edge('b%d' % v, 'a%d' % u) if (k % 2) else N.add_edge('a%d' % u, 'b%d' % v)
+                k += 1
+        before = copy.deepcopy(snap(N))
+        GraphPigeonholePrinciple(N)
+        SubsetCardinalityFormula(N)
+        F = CNF([[1, -2], [3]])
+        VariableCompression(F, N, 'xor')
+        D = networkx.DiGraph()
+        D.add_nodes_from([1, 2, 3])
+        D.add_edges_from([(1, 3), (2, 3)])
+        dsnap = copy.deepcopy(snap(D))
+        SparseStoneFormula(D, N)
+        return snap(N) == before and snap(D) == dsnap
+    if which == 1:
+        N = networkx.Graph()
+        N.add_nodes_from(['x', 'y', 'z', 'w'], colour='red')
+        P = [('x', 'y'), ('x', 'z'), ('x', 'w'), ('y', 'z'), ('y', 'w'), ('z', 'w')]
+        for k, e in enumerate(P):
+            if bits >> k & 1:
+                N.add_edge(*e, weight=k)
+        N.graph['name'] = 'my graph'
+        before = copy.deepcopy(snap(N))
+        TseitinFormula(N)
+        GraphColoringFormula(N, 2)
+        PerfectMatchingPrinciple(N)
+        return snap(N) == before
+    D = networkx.DiGraph()
+    D.add_nodes_from([1, 2, 3, 4], tag='t')
+    P = [(1, 2), (1, 3), (1, 4), (2, 3), (2, 4), (3, 4)]
+    for k, e in enumerate(P):
+        if bits >> k & 1:
+            D.add_edge(*e)
+    before = copy.deepcopy(snap(D))
+    PebblingFormula(D)
+    return snap(D) == before
+
+
+def h_e_nx_args(which: int, bits: int, as_str: bool) -> bool:
+    """
+    pre: 0 <= which <= 2 and 0 <= bits <= 63
+    post: _
+    """
+    return untraced(_nx_args, pick(which, 0, 2), pick(bits, 0, 63), pickb(as_str))
+
+
 def h_e_other(which: int, n: int, bits: int) -> bool:
     """
     pre: 0 <= which <= 2 and 0 <= n <= 4 and 0 <= bits <= 63
